@@ -92,7 +92,15 @@ def install_special_function_atoms(pe: PE):
 def assume_generic_moment(text, env):
     """named regime assumption: the Mellin moment is not within 1e-5 of a removable singularity (N = 1) -
     the guarded branches substitute the analytic limit there (audited under C26)"""
-    t = text.replace(" ", "")
-    if "abs(n.imag)<" in t or "abs(n-1" in t or "abs(N.imag)<" in t or "abs(N-1" in t:
-        return False
+    from . import pe as P
+
+    if "abs(" not in text:
+        return None
+    try:
+        t = ast.parse(text, mode="eval").body
+    except SyntaxError:
+        return None
+    # |symbolic quantity| against a small constant: judged on the values of the operands (a generic moment is not within the tolerance)
+    if isinstance(t, ast.Compare) and len(t.ops) == 1 and isinstance(t.ops[0], (ast.Lt, ast.LtE, ast.Gt, ast.GtE)):
+        return P.decide_on_values(P.CURRENT_PE, text, env)
     return None
